@@ -31,7 +31,10 @@ def startsWith : Str → Str → Bool
   | a :: s, b :: t => a == b && startsWith s t
 
 /-- `s.endswith('/')` -/
-def endsWithSlash (s : Str) : Bool := s.getLast? == some '/'
+def endsWithSlash : Str → Bool
+  | [] => false
+  | [c] => c == '/'
+  | _ :: c :: s => endsWithSlash (c :: s)
 
 /-- `s.partition('/')[0]` -/
 def beforeSlash (s : Str) : Str := s.takeWhile (fun c => !(c == '/'))
